@@ -289,20 +289,21 @@ Proof.
 Qed.
 
 (* struct_check accepts a dict whose keys are declared and that carries the members it must *)
-Lemma struct_check_valid ms o c allow kv :
+Lemma struct_check_valid (ms : list (str * dtype)) o c allow (kv : list (str * pyval)) :
   forallb (fun p : str * pyval => mem_str (fst p) (map fst ms)) kv = true ->
   forallb (fun n => mem_str n (map fst kv) || ((c || allow) && mem_str n o)) (map fst ms) = true ->
   struct_check (map fst ms) o c allow (PDict kv) = Ok tt.
 Proof.
   intros H1 H2. unfold struct_check. cbn [py_dict].
   assert (Hs : existsb (fun p => negb (mem_str (fst p) (map fst ms))) kv = false).
-  { induction kv as [|p kv IH]; cbn; [reflexivity|]. cbn in H1. apply andb_prop in H1. destruct H1 as [Hp H1].
+  { clear H2. induction kv as [|p kv IH]; cbn; [reflexivity|]. cbn in H1. apply andb_prop in H1. destruct H1 as [Hp H1].
     rewrite Hp. cbn. apply IH, H1. }
   rewrite Hs.
   assert (Hm : (if c || allow
                 then filter (fun n => negb (mem_str n o)) (filter (fun n => negb (mem_str n (map fst kv))) (map fst ms))
                 else filter (fun n => negb (mem_str n (map fst kv))) (map fst ms)) = []).
-  { induction (map fst ms) as [|n names IH]; [destruct (c || allow); reflexivity|].
+  { clear H1 Hs. revert H2. generalize (map fst ms) as names.
+    induction names as [|n names IH]; intros H2; [destruct (c || allow); reflexivity|].
     cbn in H2. apply andb_prop in H2. destruct H2 as [Hn H2]. specialize (IH H2).
     cbn. destruct (mem_str n (map fst kv)); cbn; [exact IH|].
     cbn in Hn. destruct (c || allow); cbn in *; [|discriminate]. rewrite Hn. cbn. exact IH. }
@@ -340,8 +341,8 @@ Proof.
     apply andb_prop in Hv. destruct Hv as [H1 H2].
     destruct (map_chain e l Hl (IHe HL)) as (js & ws & vs & G1 & G2 & G3 & G4 & G5).
     exists (PList js), (PTuple ws), (PTuple vs). cbn [dt_export dt_import dt_validate].
-    rewrite (array_check_len _ _ _ H1 H2). cbn. rewrite G1. cbn. rewrite G2. cbn.
-    rewrite array_check_len by (rewrite G5; assumption). cbn. rewrite G3. cbn.
+    rewrite (array_check_len _ _ _ H1 H2). cbn [bind py_iter]. rewrite G1. cbn [bind py_iter]. rewrite G2.
+    cbn [bind py_iter py_truthy]. rewrite array_check_len by (rewrite G5; assumption). cbn [bind py_iter]. rewrite G3. cbn.
     repeat split; [constructor; exact G4|discriminate].
   - (* tuple *)
     destruct v; try discriminate. rewrite valid_tuple in Hv.
@@ -353,8 +354,8 @@ Proof.
     destruct (mapd_chain es HF l Hv) as (js & ws & vs & G1 & G2 & G3 & G4 & G5 & G6).
     pose proof (all2_length _ _ Hv) as Hlen.
     exists (PList js), (PTuple ws), (PTuple vs). cbn [dt_export dt_import dt_validate].
-    rewrite (tuple_check_len _ _ Hlen). cbn. rewrite G1. cbn. rewrite G2. cbn.
-    rewrite tuple_check_len by congruence. cbn. rewrite G3. cbn.
+    rewrite (tuple_check_len _ _ Hlen). cbn [bind py_iter]. rewrite G1. cbn [bind py_iter]. rewrite G2.
+    cbn [bind py_iter]. rewrite tuple_check_len by congruence. cbn [bind py_iter]. rewrite G3. cbn.
     repeat split; [constructor; exact G4|discriminate].
   - (* struct *)
     destruct v; try discriminate. rewrite valid_struct in Hv. apply andb_prop in Hv. destruct Hv as [Hv H3].
@@ -374,7 +375,7 @@ Proof.
       rewrite <- Hk in Hall. clear - Hall. induction l0 as [|p l0 IH]; cbn in *; [reflexivity|].
       apply andb_prop in Hall. destruct Hall as [Hp Hall]. rewrite Hp. apply IH, Hall. }
     exists (PDict js), (PDict ws), (PDict vs). cbn [dt_export dt_import dt_validate].
-    assert (Hreq : forall l allow, keys l = keys kv ->
+    assert (Hreq : forall (l : list (str * pyval)) allow, keys l = keys kv ->
               forallb (fun n => mem_str n (map fst l) || ((c || allow) && mem_str n o)) (map fst ms) = true).
     { intros l0 allow Hk. unfold keys in Hk. rewrite Hk. revert H3. apply forallb_imp. intros n Hn.
       apply orb_prop in Hn. destruct Hn as [Hn|Hn]; [rewrite Hn; reflexivity|].
@@ -389,3 +390,43 @@ Proof.
 Qed.
 
 End RT.
+
+(* ------------------------------------------------------------------ general forms of the defects of the pinned tree *)
+(* a one-member tuple: its text "(x)" denotes x itself; whenever x is not a sized object the text is refused *)
+Lemma one_tuple_text_refused C d1 t w :
+  lit_eval C t = Some w -> py_len w = None -> from_string C (TTuple [d1]) (PP [t]) = Err EWrongType.
+Proof.
+  intros H1 H2. unfold from_string, generic_from_string. cbn [lit_eval]. rewrite H1.
+  cbn [dt_call length]. unfold tuple_check. rewrite H2. reflexivity.
+Qed.
+
+(* setParameterFromString hands over the internal value: an enum member or a bytes object never reaches the node *)
+Lemma setparam_enum_unserialisable C E dc d t n z :
+  from_string C dc t = Ok (PEnum n z) -> set_from_string C E dc d t = Err EType.
+Proof. intros H. unfold set_from_string. rewrite H. reflexivity. Qed.
+Lemma setparam_bytes_unserialisable C E dc d t b :
+  from_string C dc t = Ok (PBytes b) -> set_from_string C E dc d t = Err EType.
+Proof. intros H. unfold set_from_string. rewrite H. reflexivity. Qed.
+
+(* ... and a scaled value arrives as the float, of which the node keeps the integer part times the scale *)
+Lemma setparam_scaled_truncates C E dc s mn mx t f :
+  from_string C dc t = Ok (PFloat f) ->
+  set_from_string C E dc (TScaled s mn mx) t = scaled_import E s (PFloat f) >>= fun v => scaled_validate s mn mx v.
+Proof. intros H. unfold set_from_string. rewrite H. reflexivity. Qed.
+
+(* the client side of a string type without maxchars limit but with a minimum length accepts exactly that length *)
+Lemma client_string_collapses minc u : minc <> 0%Z ->
+  client_of (TString minc UNLIMITED u) = Ok (TString minc minc u).
+Proof.
+  intros H. cbn [client_of]. replace (UNLIMITED =? UNLIMITED)%Z with true by reflexivity.
+  destruct (Z.eqb_spec minc 0); [contradiction|reflexivity].
+Qed.
+
+(* with export_value in place, setParameterFromString would be from_string followed by the wire round trip *)
+Lemma setparam_exported_roundtrip C E d t w :
+  b64_law E C -> num_leaves (num_rt E C) d -> from_string C d t = Ok w -> valid d w = true ->
+  exists v', set_from_string_exported C E d d t = Ok v' /\ py_eq w v'.
+Proof.
+  intros HB HL H Hv. destruct (wire_roundtrip E C HB d HL w Hv) as (j & w' & v' & H1 & H2 & H3 & H4 & _).
+  exists v'. unfold set_from_string_exported, wire. rewrite H. cbn. rewrite H1. cbn. rewrite H2. cbn. auto.
+Qed.
